@@ -24,6 +24,7 @@ import numpy  # noqa: E402
 from xlcalculator import Evaluator, Model, ModelCompiler  # noqa: E402,F401
 from xlcalculator import parser as xlparser  # noqa: E402,F401
 from xlcalculator import xltypes  # noqa: E402,F401
+XLCell = xltypes.XLCell
 from xlcalculator import ast_nodes  # noqa: E402,F401
 from xlcalculator import evaluator as xlevaluator  # noqa: E402
 from xlcalculator.xlfunctions import xl, xlerrors, func_xltypes  # noqa: E402
